@@ -294,13 +294,16 @@ spec fn tx_rate_spec(tx: &Transaction, input_sum: int) -> Option<u64> {
 //@| requires
 //@|     // [assumption, stated] the input values of one transaction sum to less than 2^64/1000 satoshi (total supply is 2.1e15)
 //@|     1000 * input_sum_spec(tx, unstable_blocks, tx.input_spec().len() as int) <= u64::MAX,
+//@|     // the previous outputs a transaction of an unstable block spends are in the TxOut cache (the repo traps otherwise)
+//@|     forall|i: int| 0 <= i < tx.input_spec().len() ==> has_tx_out(unstable_blocks, outpoint_of((#[trigger] tx.input_spec()[i]).previous_output)),
 //@| ensures
 //@|     r == tx_rate_spec(tx, input_sum_spec(tx, unstable_blocks, tx.input_spec().len() as int)),
 //@ loop 1 binder=iti
 //@| invariant
 //@|     input_sum == input_sum_spec(tx, unstable_blocks, iti.index@ as int),
 //@|     1000 * input_sum_spec(tx, unstable_blocks, tx.input_spec().len() as int) <= u64::MAX,
-//@ before "input_sum += unstable_blocks"
+//@|     forall|i: int| 0 <= i < tx.input_spec().len() ==> has_tx_out(unstable_blocks, outpoint_of((#[trigger] tx.input_spec()[i]).previous_output)),
+//@ before "let outpoint = vp_outpoint_of"
 //@| proof {
 //@|     lemma_input_sum_mono(tx, unstable_blocks, iti.index@ + 1, tx.input_spec().len() as int);
 //@|     assert(*tx_in == tx.input_spec()[iti.index@ as int]);
